@@ -2,7 +2,7 @@
    In both models a panic, an arithmetic overflow (checked arithmetic), an out-of-range shift and an
    unreachable-code trap all appear as the outcome [Panic]. *)
 From Coq Require Import NArith Arith Bool List Lia.
-From PK Require Import Base.Outcome Base.Finite Base.Machine Gen.Types Impl Spec.Frame Check.Scan Check.Ps2M Check.Lay Enc.
+From PK Require Import Base.Outcome Base.Finite Base.Machine Gen.Types Impl Spec.Frame Spec.Event Check.Scan Check.Ps2M Check.Lay Check.Ev Enc.
 Import ListNotations.
 Local Open Scope N_scope.
 
@@ -52,4 +52,34 @@ Proof.
   intros Hind H s w Hw. rewrite Hind.
   pose proof (filter_nil_forall _ _ H w (all_below_complete 65536 w Hw)) as B. apply negb_false_iff in B.
   destruct (ps_add_word I s0 w); [discriminate | discriminate B].
+Qed.
+
+(* --- frame decoder, bit-serial: reachable-state invariant (bounded exploration, then closure) --- *)
+Definition ps2_states (I : Ps2Impl) (s0 : ps_st I) : list (ps_st I) :=
+  explore (ps2_machine I) (ps_eqb I) all_ops 64 [s0] [s0].
+Notation inv_ps2 I s0 := (inv_closed (ps2_machine I) (ps_eqb I) all_ops (ps2_states I s0) s0).
+Theorem C08_bitops (I : Ps2Impl) (s0 : ps_st I) :
+  inv_ps2 I s0 = true -> forall ops : list bit_op, exists s' os, run (ps2_machine I) s0 ops = Ret (s', os).
+Proof.
+  intros Hinv ops.
+  assert (Hall : Forall (fun op => In op all_ops) ops) by (apply Forall_forall; intros op _; apply all_ops_complete).
+  destruct (@reach_inv _ _ (ps2_machine I) (ps_eqb I) (ps_eqb_ok I) all_ops (ps2_states I s0) s0 Hinv ops Hall s0
+              (@init_in _ _ (ps2_machine I) (ps_eqb I) (ps_eqb_ok I) all_ops (ps2_states I s0) s0 Hinv)) as (s' & os & R & _).
+  eauto.
+Qed.
+
+(* --- event decoder (EvImpl): no step or mode change panics, reachable states closed --- *)
+Definition panicking_events (I : EvImpl) : list (ev_state * KeyEvent) :=
+  filter (fun x : ev_state * KeyEvent =>
+            ev_reach I (fst x) && negb (match ev_step I (fst x) (snd x) with Ret (s', _) => ev_reach I s' | Panic => false end))
+         Check.Ev.all_steps.
+Theorem C08_events (I : EvImpl) : panicking_events I = [] ->
+  forall evs s, ev_reach I s = true ->
+  exists s' rs, impl_run I s (map EEvent evs) = Ret (s', rs).
+Proof.
+  intros H evs. induction evs as [|ev evs IH]; intros s Hs; cbn [map impl_run]; [eauto|].
+  assert (Hin : In (s, ev) Check.Ev.all_steps) by (apply in_prod; [apply all_ev_state_complete | apply all_KeyEvent_complete]).
+  pose proof (filter_nil_forall _ _ H (s, ev) Hin) as B. cbn [fst snd] in B. rewrite Hs in B. cbn [andb] in B.
+  apply negb_false_iff in B. destruct (ev_step I s ev) as [[s1 r]|]; [|discriminate].
+  destruct (IH s1 B) as (s' & rs & R). rewrite R. eauto.
 Qed.
